@@ -514,6 +514,12 @@ impl Context {
             (Literal::Map(m), CodegenTy::BTreeMap(k_ty, v_ty)) => {
                 (mk_map(m, k_ty, v_ty, true)?, false)
             }
+            // a set constant
+            (Literal::List(_), CodegenTy::LazyStaticRef(set))
+                if matches!(&**set, CodegenTy::Set(_) | CodegenTy::BTreeSet(_)) =>
+            {
+                self.lit_into_ty(lit, set)?
+            }
             (Literal::List(l), CodegenTy::LazyStaticRef(map)) => {
                 assert!(l.is_empty());
                 match &**map {
